@@ -279,7 +279,7 @@ let handle (x : Sexp.t) : string =
                  | Some w -> Registry.result ~id ~status:"diff" ~key:"writer-text" ~detail:w ()
                  | None -> Registry.result ~id ~status:"ok" ~key:(if small then "ok" else "ok-impl-only") ()))
        | Sexp.List (Sexp.Atom "err" :: _) -> Registry.result ~id ~status:"fail" ~key:"reparse-rejected" ~detail:"parse_str reports errors on the writer's own output" ()
-       | Sexp.List (Sexp.Atom "panic" :: loc :: _) -> Registry.result ~id ~status:"fail" ~key:("reparse-panic:" ^ Sexp.atom loc) ()
+       | Sexp.List (Sexp.Atom "panic" :: loc :: _) -> Registry.result ~id ~status:"fail" ~key:"reparse-panic" ~detail:("parse_str panics on the writer's own output at " ^ Sexp.atom loc) ()
        | _ -> raise (Sexp.Parse_error "sys1"))
 
 let () = Registry.register "C09" handle
